@@ -87,6 +87,9 @@ type fptEntry struct {
 	length uint32
 	flags  uint32
 	raw    []byte // if set: the 32 entry bytes verbatim (unused / garbage entries)
+	// content of the partition: 0 = written (meSpec.partFill), 1 = entirely erased (never written data
+	// partition), 2 = first half written, rest erased, 3 = only the first bytes written
+	content int
 }
 
 type meSpec struct {
@@ -233,10 +236,17 @@ func buildME(m *meSpec, size int) []byte {
 		// partitions first, so that the table wins where they overlap
 		if m.partFill != 0 {
 			for _, e := range m.entries {
-				if e.raw != nil || e.offset == 0 || e.offset == 0xffffffff {
+				if e.raw != nil || e.offset == 0 || e.offset == 0xffffffff || e.content == 1 {
 					continue
 				}
-				for k := uint64(0); k < uint64(e.length) && uint64(e.offset)+k < uint64(size); k++ {
+				written := uint64(e.length)
+				switch e.content {
+				case 2:
+					written = uint64(e.length) / 2
+				case 3:
+					written = 16
+				}
+				for k := uint64(0); k < written && k < uint64(e.length) && uint64(e.offset)+k < uint64(size); k++ {
 					b[uint64(e.offset)+k] = m.partFill
 				}
 			}
